@@ -12,15 +12,22 @@ use vstd::prelude::*;
 verus! {
 //@include std_prelude.rs
 //@include error_mod.rs
+//@include time_stub.rs
 
+pub mod keyax {
+    use vstd::prelude::*;
+    pub broadcast axiom fn ax_trusted_origins_key()
+        ensures #[trigger] vstd::std_specs::hash::obeys_key_model::<crate::datalog::TrustedOrigins>();
+}
 pub mod datalog {
     use vstd::prelude::*;
     use crate::verif_std::*;
     use crate::error;
     use crate::error::Execution;
     use std::collections::{BTreeMap, BTreeSet, HashMap, HashSet};
+    use crate::time::{Instant, Duration};
     pub type SymbolIndex = u64;
-    broadcast use {crate::error::qm_axioms, vstd::std_specs::hash::group_hash_axioms};
+    broadcast use {crate::error::qm_axioms, vstd::std_specs::hash::group_hash_axioms, crate::keyax::ax_trusted_origins_key};
 
     //@extract biscuit-auth/src/datalog/mod.rs :: enum Term
     //@end
@@ -43,7 +50,14 @@ pub mod datalog {
     #[verifier::external_body] pub struct Origin { _p: u8 }
     #[verifier::external_body] pub struct TrustedOrigins { _p: u8 }
     #[verifier::external_body] pub struct FactSet { _p: u8 }
-    #[verifier::external_body] pub struct RuleSet { _p: u8 }
+    //@extract biscuit-auth/src/datalog/mod.rs :: struct RuleSet
+    //@end
+    //@extract biscuit-auth/src/datalog/mod.rs :: struct RunLimits
+    //@end
+    // TrustedOrigins as a HashMap key: ASSUMED to obey vstd's key model (derived Hash / Eq are structural)
+    impl std::hash::Hash for TrustedOrigins { #[verifier::external_body] fn hash<H: std::hash::Hasher>(&self, state: &mut H) { unimplemented!() } }
+    impl PartialEq for TrustedOrigins { #[verifier::external_body] fn eq(&self, o: &Self) -> bool { unimplemented!() } }
+    impl Eq for TrustedOrigins {}
     #[verifier::external_body] pub struct MatchedVariables { _p: u8 }
     #[verifier::external_body] pub struct FactIt { _p: u8 }
     impl Clone for FactIt { #[verifier::external_body] fn clone(&self) -> (r: Self) ensures r == *self { unimplemented!() } }
@@ -71,7 +85,7 @@ pub mod datalog {
 
     // ---- ORACLES -------------------------------------------------------------------------------
     // the facts of `facts` visible under the trusted set `scope`
-    pub uninterp spec fn fact_it_of(facts: FactSet, scope: TrustedOrigins) -> FactIt;
+    pub uninterp spec fn fact_it_of(facts: Set<(Origin, Fact)>, scope: TrustedOrigins) -> FactIt;
     // the bindings produced by the join of `body` over the visible facts, with their origins, in the iterator's order
     pub uninterp spec fn combos(vars: MatchedVariables, body: Seq<Predicate>, facts: FactIt, symbols: SymbolTable) -> Seq<(Origin, HashMap<u32, Term>)>;
     // the items of Rule::apply: the facts a rule derives (or the expression error met on the way)
@@ -86,12 +100,18 @@ pub mod datalog {
 
     impl FactSet {
         #[verifier::external_body]
-        pub fn iterator<'a>(&'a self, scope: &'a TrustedOrigins) -> (r: FactIt) ensures r == fact_it_of(*self, *scope) { unimplemented!() }
+        pub fn iterator<'a>(&'a self, scope: &'a TrustedOrigins) -> (r: FactIt) ensures r == fact_it_of(fs_view(*self), *scope) { unimplemented!() }
         #[verifier::external_body]
         pub fn insert(&mut self, origin: &Origin, fact: Fact) ensures fs_view(*final(self)) == fs_view(*old(self)).insert((*origin, fact)) { unimplemented!() }
         #[verifier::external_body]
         pub fn default() -> (r: FactSet) ensures fs_view(r) == Set::<(Origin, Fact)>::empty() { unimplemented!() }
+        // ASSUMED (HashMap<Origin, HashSet<Fact>> code): len is the number of (origin, fact) pairs, merge is the union
+        #[verifier::external_body]
+        pub fn len(&self) -> (r: usize) ensures r == fs_view(*self).len() { unimplemented!() }
+        #[verifier::external_body]
+        pub fn merge(&mut self, other: FactSet) ensures fs_view(*final(self)) == fs_view(*old(self)).union(fs_view(other)) { unimplemented!() }
     }
+    impl Clone for Origin { #[verifier::external_body] fn clone(&self) -> (r: Self) ensures r == *self { unimplemented!() } }
     impl TemporarySymbolTable {
         #[verifier::external_body]
         pub fn new(symbols: &SymbolTable) -> (r: TemporarySymbolTable) ensures r == tmp_new(*symbols) { unimplemented!() }
@@ -141,12 +161,42 @@ pub mod datalog {
         }
     }
     pub open spec fn check_all_spec(rule: Rule, facts: FactSet, scope: TrustedOrigins, symbols: SymbolTable, ext: HashMap<String, ExternFunc>) -> Result<bool, Execution> {
-        cma_spec(combos(mv_from(vars_of(rule)), rule.body@, fact_it_of(facts, scope), symbols), 0, rule.expressions@, symbols, ext)
+        cma_spec(combos(mv_from(vars_of(rule)), rule.body@, fact_it_of(fs_view(facts), scope), symbols), 0, rule.expressions@, symbols, ext)
     }
     // `check if` / policies: the first item of the rule's application decides
     pub open spec fn find_spec(rule: Rule, facts: FactSet, origin: usize, scope: TrustedOrigins, symbols: SymbolTable, ext: HashMap<String, ExternFunc>) -> Result<bool, Execution> {
-        let s = apply_seq(rule, fact_it_of(facts, scope), origin, symbols, ext);
+        let s = apply_seq(rule, fact_it_of(fs_view(facts), scope), origin, symbols, ext);
         if s.len() == 0 { Ok(false) } else { match s[0] { Ok(_) => Ok(true), Err(e) => Err(Execution::Expression(e)) } }
+    }
+
+    // ---- the fixpoint loop (World::run_with_limits) -------------------------------------------------
+    pub open spec fn item_in(nf: Set<(Origin, Fact)>, item: Result<(Origin, Fact), error::Expression>) -> bool { item is Ok && nf.contains(item->Ok_0) }
+    // the first `upto` items of one rule application are recorded in nf
+    pub open spec fn rule_done(nf: Set<(Origin, Fact)>, s: Seq<Result<(Origin, Fact), error::Expression>>, upto: int) -> bool {
+        forall|k: int| 0 <= k < upto && k < s.len() ==> item_in(nf, #[trigger] s[k])
+    }
+    pub open spec fn rules_done(nf: Set<(Origin, Fact)>, rules: Seq<(usize, Rule)>, fit: FactIt, symbols: SymbolTable, ext: HashMap<String, ExternFunc>, upto: int) -> bool {
+        forall|idx: int| 0 <= idx < upto && idx < rules.len() ==> rule_done(nf, #[trigger] apply_seq(rules[idx].1, fit, rules[idx].0, symbols, ext), apply_seq(rules[idx].1, fit, rules[idx].0, symbols, ext).len() as int)
+    }
+    // every fact derivable in ONE round from the facts f, by any rule of the rule store, is in nf
+    pub open spec fn closed_over(nf: Set<(Origin, Fact)>, rm: Map<TrustedOrigins, Vec<(usize, Rule)>>, f: Set<(Origin, Fact)>, symbols: SymbolTable, ext: HashMap<String, ExternFunc>) -> bool {
+        forall|scope: TrustedOrigins| #[trigger] rm.contains_key(scope) ==> rules_done(nf, rm[scope]@, fact_it_of(f, scope), symbols, ext, rm[scope]@.len() as int)
+    }
+    // fixpoint: the fact set is closed under one more round of rule application
+    pub open spec fn closed(rm: Map<TrustedOrigins, Vec<(usize, Rule)>>, f: Set<(Origin, Fact)>, symbols: SymbolTable, ext: HashMap<String, ExternFunc>) -> bool {
+        closed_over(f, rm, f, symbols, ext)
+    }
+    pub proof fn lemma_union_same_len<T>(a: Set<T>, b: Set<T>)
+        requires a.union(b).len() == a.len()
+        ensures b.subset_of(a), a.union(b) =~= a
+    {
+        let d = b.difference(a);
+        assert(a.disjoint(d));
+        vstd::set_lib::lemma_set_disjoint_lens(a, d);
+        assert(a.union(d) =~= a.union(b));
+        assert(d.len() == 0);
+        d.lemma_len0_is_empty();
+        assert forall|x: T| b.contains(x) implies a.contains(x) by { if !a.contains(x) { assert(d.contains(x)); } }
     }
     impl Rule {
         #[verifier::external_body]
@@ -167,7 +217,7 @@ pub mod datalog {
         //@ ensures decision: r == check_all_spec(*self, *facts, *scope, *symbols, *extern_funcs)
         //@ loop 0 ghost it
         //@ loop 0 invariant found: found == (it.index@ > 0)
-        //@ loop 0 invariant seq: it.seq() == combos(mv_from(vars_of(*self)), self.body@, fact_it_of(*facts, *scope), *symbols)
+        //@ loop 0 invariant seq: it.seq() == combos(mv_from(vars_of(*self)), self.body@, fact_it_of(fs_view(*facts), *scope), *symbols)
         //@ loop 0 invariant spec: check_all_spec(*self, *facts, *scope, *symbols, *extern_funcs) == cma_spec(it.seq(), it.index@, self.expressions@, *symbols, *extern_funcs)
         //@ loop 1 ghost jt
         //@ loop 1 invariant seq: jt.seq().len() == self.expressions@.len() && forall|i: int| 0 <= i < self.expressions@.len() ==> *(#[trigger] jt.seq()[i]) == self.expressions@[i]
@@ -176,6 +226,41 @@ pub mod datalog {
     }
 
     impl World {
+        //@extract biscuit-auth/src/datalog/mod.rs :: impl World :: fn run_with_limits
+        //@ attr #[verifier::loop_isolation(false)]
+        //@ attr #[verifier::allow_complex_invariants]
+        //@ sub let res; => let res: Result<(), Execution>;
+        //@ requires time_sane: limits.max_time.nanos <= crate::time::MAX_NANOS / 2
+        //@ ensures fixpoint: r is Ok ==> closed(final(self).rules.inner@, fs_view(final(self).facts), *symbols, final(self).extern_funcs)
+        //@ ensures monotone: fs_view(old(self).facts).subset_of(fs_view(final(self).facts))
+        //@ ensures frame: final(self).rules == old(self).rules && final(self).extern_funcs == old(self).extern_funcs
+        //@ loop 0 invariant frame: self.rules == old(self).rules && self.extern_funcs == old(self).extern_funcs && self.iterations == old(self).iterations
+        //@ loop 0 invariant monotone: fs_view(old(self).facts).subset_of(fs_view(self.facts))
+        //@ loop 0 invariant index_bound: index <= limits.max_iterations + 1
+        //@ loop 0 invariant_except_break index: index == 0 || index < limits.max_iterations
+        //@ loop 0 ensures fixpoint: res is Ok ==> closed(self.rules.inner@, fs_view(self.facts), *symbols, self.extern_funcs)
+        //@ loop 0 decreases limits.max_iterations + 1 - index
+        //@ ghost loop 0 start :: let ghost f = fs_view(self.facts); let ghost rm = self.rules.inner@; let ghost ext = self.extern_funcs;
+        //@ loop 1 ghost it1
+        //@ loop 1 invariant frame: self.rules.inner@ == rm && fs_view(self.facts) == f && self.extern_funcs == ext && self.iterations == old(self).iterations && self.rules == old(self).rules
+        //@ loop 1 invariant pairs: forall|j: int| 0 <= j < it1.seq().len() ==> rm.contains_key(*(#[trigger] it1.seq()[j]).0) && rm[*it1.seq()[j].0] == *it1.seq()[j].1
+        //@ loop 1 invariant complete: forall|sc: TrustedOrigins| rm.contains_key(sc) ==> exists|j: int| 0 <= j < it1.seq().len() && *(#[trigger] it1.seq()[j]).0 == sc
+        //@ loop 1 invariant done: forall|j: int| 0 <= j < it1.index@ ==> rules_done(fs_view(new_facts), (*(#[trigger] it1.seq()[j]).1)@, fact_it_of(f, *it1.seq()[j].0), *symbols, ext, (*it1.seq()[j].1)@.len() as int)
+        //@ loop 2 ghost it2
+        //@ loop 2 invariant elems: it2.seq().len() == rules@.len() && forall|q: int| 0 <= q < it2.seq().len() ==> *(#[trigger] it2.seq()[q]) == rules@[q]
+        //@ loop 2 invariant done: rules_done(fs_view(new_facts), rules@, fact_it_of(f, *scope), *symbols, ext, it2.index@)
+        //@ loop 2 invariant prev: forall|j: int| 0 <= j < it1.index@ ==> rules_done(fs_view(new_facts), (*(#[trigger] it1.seq()[j]).1)@, fact_it_of(f, *it1.seq()[j].0), *symbols, ext, (*it1.seq()[j].1)@.len() as int)
+        //@ loop 2 invariant frame: self.rules.inner@ == rm && fs_view(self.facts) == f && self.extern_funcs == ext && self.iterations == old(self).iterations && self.rules == old(self).rules && it == fact_it_of(f, *scope)
+        //@ loop 3 ghost it3
+        //@ loop 3 invariant seq: it3.seq() == apply_seq(*rule, fact_it_of(f, *scope), *origin, *symbols, ext)
+        //@ loop 3 invariant this: rule_done(fs_view(new_facts), it3.seq(), it3.index@)
+        //@ loop 3 invariant done: rules_done(fs_view(new_facts), rules@, fact_it_of(f, *scope), *symbols, ext, it2.index@)
+        //@ loop 3 invariant prev: forall|j: int| 0 <= j < it1.index@ ==> rules_done(fs_view(new_facts), (*(#[trigger] it1.seq()[j]).1)@, fact_it_of(f, *it1.seq()[j].0), *symbols, ext, (*it1.seq()[j].1)@.len() as int)
+        //@ loop 3 invariant frame: self.rules.inner@ == rm && fs_view(self.facts) == f && self.extern_funcs == ext && self.iterations == old(self).iterations && self.rules == old(self).rules
+        //@ loop 1 invariant done_by_scope: forall|sc: TrustedOrigins| #![trigger rm.contains_key(sc)] rm.contains_key(sc) && (exists|j: int| 0 <= j < it1.index@ && *(#[trigger] it1.seq()[j]).0 == sc) ==> rules_done(fs_view(new_facts), rm[sc]@, fact_it_of(f, sc), *symbols, ext, rm[sc]@.len() as int)
+        //@ ghost before "let len = self.facts.len();" :: proof { assert(closed_over(fs_view(new_facts), rm, f, *symbols, ext)); } let ghost nf = fs_view(new_facts);
+        //@ ghost before "{ res = Ok(()); break; }" :: proof { assert(fs_view(self.facts) == f.union(nf)); lemma_union_same_len(f, nf); assert(fs_view(self.facts) == f); assert(closed(rm, f, *symbols, ext)) by { assert forall|sc: TrustedOrigins| #[trigger] rm.contains_key(sc) implies rules_done(f, rm[sc]@, fact_it_of(f, sc), *symbols, ext, rm[sc]@.len() as int) by { assert(rules_done(nf, rm[sc]@, fact_it_of(f, sc), *symbols, ext, rm[sc]@.len() as int)); } } }
+        //@end
         //@extract biscuit-auth/src/datalog/mod.rs :: impl World :: fn query_match
         //@ ensures decision: r == find_spec(rule, self.facts, origin, *scope, *symbols, self.extern_funcs)
         //@end
@@ -189,6 +274,11 @@ pub mod datalog {
 //@canary check-all-nonbool-accepted :: datalog::Rule::check_match_all :: Ok(_) => {\n                        return Err(error::Execution::Expression(error::Expression::InvalidType))\n                    } ==>> Ok(_) => {}
 //@canary find-match-inverted :: datalog::Rule::find_match :: None => Ok(false), ==>> None => Ok(true),
 //@canary find-match-error-swallowed :: datalog::Rule::find_match :: Some(Err(e)) => Err(Execution::Expression(e)), ==>> Some(Err(e)) => Ok(false),
+//@canary derived-fact-dropped :: datalog::World::run_with_limits :: new_facts.insert(&origin, fact); ==>> {}
+//@canary fixpoint-test-weakened :: datalog::World::run_with_limits :: if self.facts.len() == len { ==>> if self.facts.len() >= len {
+//@canary expression-error-swallowed :: datalog::World::run_with_limits :: return Err(Execution::Expression(e)); ==>> {}
+//@canary rule-origin-constant :: datalog::World::run_with_limits :: rule.apply(it.clone(), *origin, ==>> rule.apply(it.clone(), 0,
+//@canary-requires datalog::World::run_with_limits
 //@canary-requires datalog::Rule::check_match_all
 //@canary-requires datalog::Rule::find_match
 } // verus!
